@@ -8,19 +8,23 @@
 (***************************************************************************)
 EXTENDS Service, Json, TLCExt
 
+CONSTANT RealL     \* TRUE: the trace comes from Service.Listen on a real listener - Bind, accept and
+                   \* listener-close steps are not observable and become silent
+
 VARIABLES l,        \* next line of the trace
           sdAct,    \* a Shutdown call is in progress (between ShutdownStart and ShutdownEnd)
           rgAct,    \* a RegisterInterface call is in progress
           bdAct,    \* a Bind call is in progress
-          sdl       \* the listener saw SetDeadline since the accept loop last came round
+          sdl,      \* the listener saw SetDeadline since the accept loop last came round
+          lAct      \* a Listen call is starting up (its internal Bind is in progress)
 
 TraceLog == ndJsonDeserialize("trace.ndjson")
-tvars == <<vars, l, sdAct, rgAct, bdAct, sdl>>
+tvars == <<vars, l, sdAct, rgAct, bdAct, sdl, lAct>>
 Ev(e) == l <= Len(TraceLog) /\ TraceLog[l].ev = e /\ l' = l + 1
 E == TraceLog[l]
-KeepT == UNCHANGED <<sdAct, rgAct, bdAct, sdl>>
+KeepT == UNCHANGED <<sdAct, rgAct, bdAct, sdl, lAct>>
 
-TraceInit == Init /\ TraceLog[1].ev = "Reset" /\ l = 2 /\ sdAct = FALSE /\ rgAct = FALSE /\ bdAct = FALSE /\ sdl = FALSE
+TraceInit == Init /\ TraceLog[1].ev = "Reset" /\ l = 2 /\ sdAct = FALSE /\ rgAct = FALSE /\ bdAct = FALSE /\ sdl = FALSE /\ lAct = FALSE
 
 AllIdle == spc = "idle" /\ \A c \in Clients : cst[c] \in {"idle", "released", "queued"}
 TReset ==           \* a new service object
@@ -33,7 +37,7 @@ TReset ==           \* a new service object
   /\ sdpc' = "idle" /\ bdpc' = "idle" /\ rgpc' = "idle" /\ rgarg' = "" /\ rgret' = "none"
   /\ gate' = FALSE
   /\ g_sdWaiting' = FALSE /\ g_sdDoneAt' = {} /\ g_servedEp' = 0 /\ g_regs' = <<>>
-  /\ sdAct' = FALSE /\ rgAct' = FALSE /\ bdAct' = FALSE /\ sdl' = FALSE
+  /\ sdAct' = FALSE /\ rgAct' = FALSE /\ bdAct' = FALSE /\ sdl' = FALSE /\ lAct' = FALSE
 
 (* the harness installs a fresh controlled listener (what Bind does at 210-212) *)
 TInstall ==
@@ -46,18 +50,20 @@ TInstall ==
 
 (* a real Bind call (second bind): BindStart ... BindEnd(res) *)
 TBindStart == /\ Ev("BindStart") /\ ~bdAct /\ bdpc = "idle"
-              /\ bdAct' = TRUE /\ UNCHANGED <<vars, sdAct, rgAct, sdl>>
+              /\ bdAct' = TRUE /\ UNCHANGED <<vars, sdAct, rgAct, sdl, lAct>>
 TBindEnd ==   /\ Ev("BindEnd") /\ bdAct
               /\ bdpc = (IF E.res = "ok" THEN "done" ELSE "refused")
-              /\ bdAct' = FALSE /\ UNCHANGED <<vars, sdAct, rgAct, sdl>>
+              /\ bdAct' = FALSE /\ UNCHANGED <<vars, sdAct, rgAct, sdl, lAct>>
 
-TServeStart == /\ Ev("ServeStart") /\ ServeStart(E.timeout, E.gate) /\ sdl' = FALSE /\ UNCHANGED <<sdAct, rgAct, bdAct>>
+TServeStart == /\ Ev("ServeStart") /\ ServeStart(E.timeout, E.gate) /\ sdl' = FALSE /\ UNCHANGED <<sdAct, rgAct, bdAct, lAct>>
+(* Service.Listen(address): Bind, then the same loop (its own copy of it, service.go 249-293) *)
+TListenStart == /\ Ev("ListenStart") /\ RealL /\ ~lAct /\ B_Check /\ lAct' = TRUE /\ UNCHANGED <<sdAct, rgAct, bdAct, sdl>>
 TServeReturn == /\ Ev("ServeReturn") /\ T_Return /\ sret = E.ret /\ KeepT
 
 (* the deadline must be re-armed before every accept of a serving call with a timeout: *)
 (* L_Refresh is only possible once the listener has seen SetDeadline                   *)
 TSetDeadline == /\ Ev("SetDeadline") /\ spc = "refresh" /\ ~sdl /\ sdl' = TRUE
-                /\ UNCHANGED <<vars, sdAct, rgAct, bdAct>>
+                /\ UNCHANGED <<vars, sdAct, rgAct, bdAct, lAct>>
 TRelease == /\ Ev("Release") /\ ReleaseGate /\ KeepT
 TAcceptEnter == /\ Ev("AcceptEnter") /\ spc = "accept" /\ UNCHANGED vars /\ KeepT
 TAcceptConn == /\ Ev("AcceptConn") /\ L_AcceptConn(E.c) /\ KeepT
@@ -77,21 +83,24 @@ TShutdownStart == /\ Ev("ShutdownStart") /\ ~sdAct /\ sdpc \in {"idle", "done"}
                   /\ sdpc' = "idle"
                   /\ UNCHANGED <<running, listener, lstate, nextid, counter, wg, names, spc, sl, tmo, acc, sret, rounds,
                                  expiries, cst, cl, bdpc, rgpc, rgarg, rgret, gate, g_sdWaiting, g_sdDoneAt, g_servedEp, g_regs>>
-                  /\ sdAct' = TRUE /\ UNCHANGED <<rgAct, bdAct, sdl>>
+                  /\ sdAct' = TRUE /\ UNCHANGED <<rgAct, bdAct, sdl, lAct>>
 TShutdownEnd == /\ Ev("ShutdownEnd") /\ sdAct /\ sdpc = "done"
-                /\ sdAct' = FALSE /\ UNCHANGED <<vars, rgAct, bdAct, sdl>>
+                /\ sdAct' = FALSE /\ UNCHANGED <<vars, rgAct, bdAct, sdl, lAct>>
 
-TConnect == /\ Ev("Connect") /\ Connect(E.c) /\ cl'[E.c] = E.id /\ KeepT
-TConnectRefused == /\ Ev("ConnectRefused") /\ lstate[E.id] = "closed" /\ UNCHANGED vars /\ KeepT
+TConnect == /\ Ev("Connect") /\ Connect(E.c) /\ (RealL \/ cl'[E.c] = E.id) /\ KeepT
+TConnectRefused == /\ Ev("ConnectRefused")
+                   /\ IF RealL THEN (listener = 0 \/ lstate[listener] = "closed" \/ \A i \in 1..Len(lstate) : lstate[i] = "closed")
+                      ELSE lstate[E.id] = "closed"
+                   /\ UNCHANGED vars /\ KeepT
 TClientEnd == /\ Ev("ClientEnd") /\ EndClient(E.c) /\ KeepT
 TConnFirstRead == /\ Ev("ConnFirstRead") /\ cst[E.c] \in {"handled", "ended"} /\ UNCHANGED vars /\ KeepT
 TConnClosed == /\ Ev("ConnClosed") /\ cst[E.c] \in {"ended", "released"} /\ UNCHANGED vars /\ KeepT
 TActive == /\ Ev("Active") /\ counter = E.n /\ UNCHANGED vars /\ KeepT
 
 TRegisterStart == /\ Ev("RegisterStart") /\ ~rgAct /\ R_Start(E.i)
-                  /\ rgAct' = TRUE /\ UNCHANGED <<sdAct, bdAct, sdl>>
+                  /\ rgAct' = TRUE /\ UNCHANGED <<sdAct, bdAct, sdl, lAct>>
 TRegisterEnd == /\ Ev("RegisterEnd") /\ rgAct /\ rgpc = "done" /\ rgarg = E.i /\ rgret = E.res
-                /\ rgAct' = FALSE /\ UNCHANGED <<vars, sdAct, bdAct, sdl>>
+                /\ rgAct' = FALSE /\ UNCHANGED <<vars, sdAct, bdAct, sdl, lAct>>
 (* what the client helpers report (C13): names in registration order *)
 (* "t.e" is registered by the harness when it creates the service object *)
 Reported == <<"org.varlink.service", "t.e">> \o g_regs
@@ -114,11 +123,21 @@ SilentRest ==
      \/ (bdAct /\ (B_Check \/ B_Set))
      \/ (~bdAct /\ B_Again)
 
+SilentReal ==      \* unobservable on a real listener
+  /\ RealL
+  /\ \/ (lAct /\ (B_Set \/ B_Again) /\ UNCHANGED lAct)
+     \/ (lAct /\ bdpc = "refused" /\ B_Again /\ lAct' = FALSE)          \* Listen's Bind refused: the call returns the error
+     \/ (lAct /\ bdpc = "idle" /\ listener # 0 /\ ServeStart(FALSE, FALSE) /\ lAct' = FALSE)
+     \/ (\E c \in Clients : L_AcceptConn(c)) /\ UNCHANGED lAct
+     \/ (L_AcceptClosed /\ UNCHANGED lAct)
+     \/ (sdAct /\ (S_All \/ S_Close) /\ UNCHANGED lAct)
+     \/ (T_Teardown /\ UNCHANGED lAct)
 Silent ==
-  /\ \/ (L_Refresh /\ sdl /\ sdl' = FALSE /\ UNCHANGED <<l, sdAct, rgAct, bdAct>>)
-     \/ SilentRest /\ UNCHANGED <<l, sdAct, rgAct, bdAct, sdl>>
+  /\ \/ (L_Refresh /\ sdl /\ sdl' = FALSE /\ UNCHANGED <<l, sdAct, rgAct, bdAct, lAct>>)
+     \/ SilentRest /\ UNCHANGED <<l, sdAct, rgAct, bdAct, sdl, lAct>>
+     \/ SilentReal /\ UNCHANGED <<l, sdAct, rgAct, bdAct, sdl>>
 
-TraceNext == TReset \/ TInstall \/ TBindStart \/ TBindEnd \/ TServeStart \/ TServeReturn \/ TSetDeadline \/ TRelease
+TraceNext == TReset \/ TInstall \/ TBindStart \/ TBindEnd \/ TServeStart \/ TListenStart \/ TServeReturn \/ TSetDeadline \/ TRelease
              \/ TAcceptEnter \/ TAcceptConn \/ TAcceptTimeout \/ TAcceptClosed \/ TListenerClose
              \/ TShutdownStart \/ TShutdownEnd \/ TConnect \/ TConnectRefused \/ TClientEnd \/ TConnFirstRead
              \/ TConnClosed \/ TActive \/ TRegisterStart \/ TRegisterEnd \/ TIntrospect \/ Silent
